@@ -2,7 +2,7 @@
 from . import common
 
 MODULE = "StorageModel.Properties.C11"
-THEOREMS = ["table_is_expected", "literal_denotes", "every_string_has_literal", "distinct_strings", "no_reread",
+THEOREMS = ["table_is_good", "literal_denotes", "every_string_has_literal", "distinct_strings", "no_reread",
             "literal_lexes"]
 
 
@@ -47,5 +47,5 @@ def run(ctx, replay_cases=None):
         "input strings are valid UTF-8 (ANTLR works on code points)",
     ]
     return common.standard_flow(ctx, "c11", MODULE, THEOREMS, MATCHERS, nontrivial, describe, RULE,
-                                table_obligations=["table_is_expected (Generated/UnescapeTable.lean, regenerated from zitiql/util.go)"],
+                                table_obligations=["table_is_good (Generated/UnescapeTable.lean, regenerated from zitiql/util.go)"],
                                 replay_cases=replay_cases)
